@@ -134,6 +134,8 @@ class Run:
         outfile = os.path.join(self.work, tag + ".ndjson")
         env = dict(os.environ)
         env["VERIF_OUT"] = outfile
+        # deep recursive operators (movement logs, long catalogue documents) need more than the default thread stack
+        env.setdefault("JAVA_TOOL_OPTIONS", "-Xss256m")
         if env_extra:
             env.update(env_extra)
         meta = os.path.join(self.work, "meta-" + tag)
